@@ -135,6 +135,63 @@ fn scale_case<G: CurveTag>(n: usize, col: &mut Collector) -> Result<(), Failure>
     Ok(())
 }
 
+/// zorro points whose y-coordinate sits at the places where a y-dependent flag could change its
+/// mind: around (q−1)/2, around the limb and bit boundaries 2^64, 2^128, 2^192, 2^254, near 0 and q.
+/// Built by solving the curve equation for x (uncompressed bytes, so that no flag rule is involved).
+fn zorro_boundary_points_uncompressed() -> Vec<Vec<u8>> {
+    use ark_bulletproofs::curve::zorro::{Fq, G1Affine, Parameters};
+    use ark_ec::short_weierstrass::SWCurveConfig;
+    use ark_ff::{BigInteger, Field, One, PrimeField, Zero};
+    use ark_serialize::CanonicalSerialize;
+    thread_local! {
+        static CACHE: std::cell::RefCell<Option<Vec<Vec<u8>>>> = std::cell::RefCell::new(None);
+    }
+    if let Some(v) = CACHE.with(|c| c.borrow().clone()) {
+        return v;
+    }
+    let (a, b) = (<Parameters as SWCurveConfig>::COEFF_A, <Parameters as SWCurveConfig>::COEFF_B);
+    let half = {
+        let mut h = Fq::MODULUS;
+        h.div2();
+        Fq::from_bigint(h).unwrap()
+    };
+    let two = Fq::from(2u64);
+    let mut centres: Vec<Fq> = vec![half, half + Fq::one(), Fq::zero(), -Fq::one()];
+    for k in [64u64, 128, 192, 253, 254] {
+        centres.push(two.pow([k]));
+    }
+    let mut out = vec![];
+    for c in centres {
+        for sign in [1i64, -1] {
+            let mut found = 0;
+            let mut y = c;
+            for _ in 0..60 {
+                if !y.is_zero() {
+                    if let Some(x) = crate::cubic::cubic_root::<Fq>(a, b - y * y) {
+                        let p = G1Affine::new_unchecked(x, y);
+                        if p.is_on_curve() {
+                            let mut u = vec![];
+                            p.serialize_uncompressed(&mut u).unwrap();
+                            out.push(u);
+                            found += 1;
+                            if found == 2 {
+                                break;
+                            }
+                        }
+                    }
+                }
+                if sign > 0 {
+                    y += Fq::one();
+                } else {
+                    y -= Fq::one();
+                }
+            }
+        }
+    }
+    CACHE.with(|c| *c.borrow_mut() = Some(out.clone()));
+    out
+}
+
 fn proof_prog<G: CurveTag>(prog: crate::program::Program, col: &mut Collector, prefixes: bool) -> Result<(), Failure> {
     let shape = prog.shape();
     let k = shape.k();
@@ -274,6 +331,43 @@ fn proof_prog<G: CurveTag>(prog: crate::program::Program, col: &mut Collector, p
             crafted(format!("scalar {} := {}", crate::mirror::SCALAR_NAMES[i], name), b)?;
             n_crafted += 1;
         }
+    }
+    // zorro: points whose y sits at a boundary of the compression flag survive the encoding, alone
+    // and inside a proof
+    if G::CURVE == Curve::Zorro {
+        use ark_serialize::{CanonicalDeserialize, CanonicalSerialize};
+        for (pi, u) in zorro_boundary_points_uncompressed().iter().enumerate() {
+            let Ok(pt) = G::deserialize_uncompressed(&u[..]) else { continue };
+            col.evals_add(1);
+            let mut c = vec![];
+            pt.serialize_compressed(&mut c).unwrap();
+            let back = G::deserialize_compressed(&c[..]).ok();
+            if back != Some(pt) {
+                return Err(Failure::new(
+                    "C11:point-roundtrip:boundary-y",
+                    format!("a valid curve point (boundary point #{}) does not survive compress → decompress: decoded {}", pi, if back.is_some() { "to another point" } else { "not at all" }),
+                    json!({"point_uncompressed_hex": hex::encode(u), "compressed_hex": hex::encode(&c)}),
+                ));
+            }
+            // inside a proof, at a rotating slot
+            let mut m2 = mirror.clone();
+            let slot = pi % 11;
+            *m2.point_mut(slot) = pt;
+            let b2 = m2.to_bytes();
+            match guarded(|| R1CSProof::<G>::from_bytes(&b2).ok().and_then(|p| p.to_bytes().ok())) {
+                Ok(Some(again)) if again == b2 => {
+                    let d2 = ProofMirror::<G>::from_bytes(&again);
+                    if d2.map(|mut d| *d.point_mut(slot)) != Some(pt) {
+                        return Err(Failure::new("C11:point-roundtrip:boundary-y", format!("boundary point #{} at proof slot {} decodes to another point", pi, slot), json!({"encoding_hex": hex::encode(&b2)})));
+                    }
+                }
+                Ok(_) => {
+                    return Err(Failure::new("C11:point-roundtrip:boundary-y", format!("a proof carrying the valid boundary point #{} at slot {} does not decode and re-encode to the same bytes", pi, slot), json!({"encoding_hex": hex::encode(&b2)})));
+                }
+                Err(pn) => return Err(Failure::new("C11:roundtrip-panic", format!("panic: {}", pn), pj())),
+            }
+        }
+        col.class("zorro:boundary-y-points");
     }
     // whatever decodes re-encodes to the bytes it was decoded from — also encodings whose two lists
     // have different lengths (they are well-formed; it is verification that refuses them)
